@@ -441,6 +441,13 @@ func (vt *v2T) scenC11() {
 		n = len(v2Corpus())
 	}
 	xs, labels := vt.metaInputs(c, n)
+	// the documents of the two open findings of C11 are always part of the run, unedited
+	for _, d := range v2Corpus() {
+		if d.Key == "License/GIAJWTOU-2.0/license.txt" || d.Key == "Supplement/Apache-2.0/openssl.txt" {
+			xs = append(xs, d.Data)
+			labels = append(labels, "finding/"+d.Key)
+		}
+	}
 	for xi, x := range xs {
 		cp := append([]byte(nil), x...)
 		d0, w0 := len(c.c.docs), len(c.c.dict.words)
